@@ -1,6 +1,7 @@
 package main
 
 import (
+	"sort"
 	"strings"
 	"fmt"
 	"go/token"
@@ -366,6 +367,12 @@ func (ex *Exec) binop(st *State, t *ssa.BinOp) {
 		default:
 			r = eq(x, y)
 		}
+		if x.Sort == SIface && y.Sort == SIface && !isNilConst(t.X) && !isNilConst(t.Y) {
+			// comparing two interface values panics at run time when both hold the same uncomparable dynamic type
+			// (a slice such as ast.NodeList, a map, a function, a struct with such a field)
+			st.declComparable()
+			st.check(fmt.Sprintf("safe/ifacecmp#%d", ex.ordinal[t]), "panic", implies(eq(ifType(x), ifType(y)), app(SBool, "type.comparable", ifType(x))), "comparison of interface values: the common dynamic type is comparable (otherwise == panics)", nil, t.Pos())
+		}
 		if t.Op == token.NEQ {
 			r = not(r)
 		}
@@ -692,5 +699,37 @@ func (ex *Exec) frameStore(st *State, t *ssa.Store, l Loc) {
 		ex.frameCheck(st, name, t.Pos(), t.Addr, []frameTarget{{Fam: l.Fam, Obj: l.Obj, Idx: &idx}})
 	default:
 		ex.abort("store to %s", l)
+	}
+}
+
+func isNilConst(v ssa.Value) bool {
+	c, ok := v.(*ssa.Const)
+	return ok && c.Value == nil
+}
+
+// declComparable: type.comparable(id) for every registered dynamic type (Go's comparability of the type); ids of
+// types the program does not know are left unconstrained
+func (st *State) declComparable() {
+	if st.sc.declared["fun:type.comparable"] {
+		return
+	}
+	st.sc.declFun("type.comparable", []Sort{SInt}, SBool)
+	st.sc.emit("(assert (type.comparable 0))")
+	u := st.u()
+	ids := make([]int, 0, len(u.typeByID))
+	for id := range u.typeByID {
+		ids = append(ids, id)
+	}
+	sort.Ints(ids)
+	for _, id := range ids {
+		t := u.typeByID[id]
+		if _, isIface := t.Underlying().(*types.Interface); isIface {
+			continue
+		}
+		if types.Comparable(t) {
+			st.sc.emit("(assert (type.comparable %d))", id)
+		} else {
+			st.sc.emit("(assert (not (type.comparable %d)))", id)
+		}
 	}
 }
